@@ -109,7 +109,10 @@ func (s vC08Series) line(order []int, field string, ts int64) string {
 
 var (
 	vC08Meas   = []string{"cpu", "m", "mem", "my m", "a,b", "disk io", "x"}
-	vC08Keys   = []string{"host", "region", "dc", "a", "b", "zz"}
+	vC08Keys   = []string{"host", "region", "dc", "a", "b", "zz", "host1", "dc-zone", "dc.rack", "a-b", "a0", "region-1"}
+	// pairs in which one tag key is a prefix of the other and the next byte sorts below '=': a tag
+	// sort that looks past the key (at '=' and the value) orders them differently than a sort by key
+	vC08PrefixPairs = [][2]string{{"dc", "dc-zone"}, {"host", "host1"}, {"a", "a-b"}, {"dc", "dc.rack"}, {"a", "a0"}, {"region", "region-1"}}
 	vC08Vals   = []string{"a", "b", "server01", "x y", "p,q", "k=v", "1", "us-west"}
 	vC08Fields = []string{"v=1i", "v=2.5", "v=\"s\"", "v=t", "a=1i,b=2i"}
 )
@@ -118,6 +121,13 @@ func vC08DrawSeries(rt *rapid.T, label string) vC08Series {
 	s := vC08Series{meas: rapid.SampledFrom(vC08Meas).Draw(rt, label+".meas")}
 	n := rapid.IntRange(0, 3).Draw(rt, label+".ntags")
 	used := map[string]bool{}
+	if rapid.IntRange(0, 2).Draw(rt, label+".prefixPair") == 0 {
+		pp := rapid.SampledFrom(vC08PrefixPairs).Draw(rt, label+".pair")
+		for _, k := range pp {
+			used[k] = true
+			s.tags = append(s.tags, [2]string{k, rapid.SampledFrom(vC08Vals).Draw(rt, label+".pv")})
+		}
+	}
 	for i := 0; i < n; i++ {
 		k := rapid.SampledFrom(vC08Keys).Draw(rt, label+".k")
 		if used[k] {
@@ -819,6 +829,17 @@ func TestVerifC08Routing(t *testing.T) {
 			}
 			dup := map[string]bool{}
 			for _, p := range batch {
+				for _, pp := range vC08PrefixPairs {
+					has := 0
+					for _, kv := range p.ser.tags {
+						if kv[0] == pp[0] || kv[0] == pp[1] {
+							has++
+						}
+					}
+					if has == 2 {
+						c.classes["series:prefix-related-tag-keys"] = true
+					}
+				}
 				k := string(p.ser.canonKey())
 				if dup[k] {
 					c.classes["batch:duplicate-series"] = true
